@@ -208,6 +208,9 @@ class Type3Tag(nfc.tag.Tag):
             if attributes['nbr'] == 0:
                 log.debug("invalid attribute data, no block can be read")
                 return None
+            if attributes['ln'] > attributes['nmaxb'] * 16:
+                log.debug("invalid attribute data, length exceeds capacity")
+                return None
 
             last_block_number = 1 + (attributes['ln'] + 15) // 16
             data = bytearray()
